@@ -1,5 +1,6 @@
 import GormModel.Drv.Util
 import GormModel.Model.Callbacks
+import GormModel.Model.CallbackBuilder
 open Lean
 namespace Gorm.Drv
 
@@ -17,6 +18,50 @@ def parseRegOp (j : Json) : Option RegOp := do
   | "remove" => some (.remove (← jStr? (arg p 1)))
   | _ => none
 
+def parsePred : String → Option (Option Bool)
+  | "nil" => some none
+  | "true" => some (some true)
+  | "false" => some (some false)
+  | _ => none
+
+def parseStart (j : Json) : Option CbB.Start := do
+  let p ← jArr? j
+  match ← jStr? (arg p 0) with
+  | "plain" => some .plain
+  | "before" => some (.before (← jStr? (arg p 1)))
+  | "after" => some (.after (← jStr? (arg p 1)))
+  | "match" => some (.mtch (← parsePred (← jStr? (arg p 1))))
+  | _ => none
+
+def parseStep (j : Json) : Option CbB.Step := do
+  let p ← jArr? j
+  match ← jStr? (arg p 0) with
+  | "before" => some (.before (← jStr? (arg p 1)))
+  | "after" => some (.after (← jStr? (arg p 1)))
+  | _ => none
+
+def parseFinish (j : Json) : Option CbB.Finish := do
+  let p ← jArr? j
+  match ← jStr? (arg p 0) with
+  | "register" => some (.register (← jStr? (arg p 1)) (← jNat? (arg p 2)))
+  | "replace" => some (.replace (← jStr? (arg p 1)) (← jNat? (arg p 2)))
+  | "remove" => some (.remove (← jStr? (arg p 1)))
+  | _ => none
+
+/-- ["chain", start, [steps], finish] -/
+def parseChain (p : Array Json) : Option CbB.Chain := do
+  some { start := ← parseStart (arg p 1), steps := ← (← jArr? (arg p 2)).toList.mapM parseStep, fin := ← parseFinish (arg p 3) }
+
+/-- a history item: a `RegOp` (legacy spelling) or a chain, as (record handed to compile, record == request) -/
+def parseItem (j : Json) : Option (Cb × Bool) := do
+  let p ← jArr? j
+  match ← jStr? (arg p 0) with
+  | "chain" =>
+    let ch ← parseChain p
+    let rec_ := if (jBool? (arg p 4)).getD false then ch.recordDropped CbB.treeBuilder else ch.record CbB.treeBuilder
+    some (rec_.toCb, rec_ == ch.request)
+  | _ => some ((← parseRegOp j).toCb, true)
+
 def errJ : Option SortErr → Json
   | none => Json.str "ok"
   | some (.conflict _ _) => Json.str "conflict"
@@ -26,17 +71,19 @@ def errJ : Option SortErr → Json
 /-- how many calls of a history separate the depth guard from the unguarded recursion: the unguarded model
     (stack depth `sortFuel n`) terminates although it recurses deeper than the guard's bound `2n+2`.
     Returns (number of such calls, number of them on which the unguarded call returns no error). -/
-def guardGap (r : CbRepairs) (p0 : Proc) (ops : List RegOp) : Nat × Nat :=
+def guardGap (r : CbRepairs) (p0 : Proc) (ops : List Cb) : Nat × Nat :=
   let r0 : CbRepairs := { r with depthGuard := false }
   let r1 : CbRepairs := { r with depthGuard := true }
   (ops.foldl (fun (acc : Proc × Nat × Nat) op =>
     let (p, a, b) := acc
-    let (p0', e0) := p.applyR r0 op
-    let (_, e1) := p.applyR r1 op
+    let (p0', e0) := p.applyCbR r0 op
+    let (_, e1) := p.applyCbR r1 op
     let gap := e1 == some .cycle && e0 != some .fuel
     (p0', a + (if gap then 1 else 0), b + (if gap && e0 == none then 1 else 0))) (p0, 0, 0)).2
 
 /-- ["cb.run", [regops for the initial (built-in) registrations], [regops]] ->
+    (items of the second list: legacy RegOps or ["chain", start, [steps], finish] -- built through the REGENERATED
+     builder tables `treeBuilder`; optional 4th argument: names to `Get`)
     {"errs":[...per op of the second list...], "fns":[hid...], "names":[final callback names],
      "gap":[calls where the guard and the terminating unguarded recursion differ, those without error]}
     run on the model of the tree under check (`treeRepairs`: regenerated repair flags);
@@ -45,21 +92,28 @@ def handleC17 (op : String) (args : Array Json) : Option Json := do
   match op with
   | "cb.run" =>
     let init ← (← jArr? (arg args 1)).toList.mapM parseRegOp
-    let ops ← (← jArr? (arg args 2)).toList.mapM parseRegOp
+    let items ← (← jArr? (arg args 2)).toList.mapM parseItem
+    let ops := items.map (·.1)
+    let getNames := ((jArr? (arg args 3)).getD #[]).toList.filterMap jStr?
     let (p0, _) := Proc.runR treeRepairs {} init
-    let (p, errs) := Proc.runR treeRepairs p0 ops
+    let (p, errs) := Proc.runCbsR treeRepairs p0 ops
     -- only meaningful (and only computed) when the tree has the depth guard
     let gap := if treeRepairs.depthGuard then guardGap treeRepairs p0 ops else (0, 0)
     some (Json.mkObj [
       ("errs", Json.arr (errs.map errJ).toArray),
       ("fns", natListJ p.fns),
       ("names", strListJ (p.callbacks.map (·.name))),
+      ("table", Json.arr (p.callbacks.map (fun c => Json.arr #[Json.str c.name, Json.str c.before, Json.str c.after,
+          Json.bool c.remove, Json.bool c.replace, Json.num (c.hid : Int)])).toArray),
+      ("get", Json.arr (getNames.map (fun n => match p.get n with | some h => Json.num (h : Int) | none => Json.num (-1 : Int))).toArray),
+      ("spelled", Json.bool (items.all (·.2))),
       ("gap", natListJ [gap.1, gap.2])])
   | "cb.flags" =>
     some (Json.mkObj [
       ("depthGuard", Json.bool treeRepairs.depthGuard),
       ("sortCopies", Json.bool treeRepairs.sortCopies),
-      ("starOrder", Json.bool treeRepairs.starOrder)])
+      ("starOrder", Json.bool treeRepairs.starOrder),
+      ("builderCanonical", Json.bool (CbB.treeBuilder == CbB.BuilderFacts.canonical))])
   | _ => none
 
 end Gorm.Drv
